@@ -15,7 +15,8 @@
    Every name / reunite case and every final proto state prints what the model expects. *)
 EXTENDS RemoteJob, Json
 
-CONSTANTS MaxN, MaxSeg, Kinds      \* Kinds \subseteq {"proto", "name", "reunite"}
+CONSTANTS MaxN, MaxSeg, Kinds,     \* Kinds \subseteq {"proto", "name", "reunite"}
+          SimPick                  \* TRUE (with -simulate): draw the case at random instead of branching on it
 
 Behs == {"ok", "raise", "unp"}
 Stales(n, beh) ==
@@ -62,7 +63,8 @@ GInit == /\ kind = "start" /\ x = 0 /\ hist = <<>>
          /\ cas = NullCase /\ fs = StaleFs(NullCase) /\ phase = "idle" /\ ran = <<0>> /\ parsed = <<<<>>>>
          /\ act = <<"none", 0>>
 Choose == /\ kind = "start"
-          /\ \/ "proto" \in Kinds /\ kind' = "proto" /\ x' = 0 /\ hist' = <<>> /\ \E c \in Proto : Fresh(c)
+          /\ \/ "proto" \in Kinds /\ kind' = "proto" /\ x' = 0 /\ hist' = <<>>
+                /\ \E c \in IF SimPick THEN {RandomElement(Proto)} ELSE Proto : Fresh(c)
              \/ "name" \in Kinds /\ kind' = "name" /\ x' \in NameCases /\ UNCHANGED <<vars, hist>>
              \/ "reunite" \in Kinds /\ kind' = "reunite" /\ x' \in ReuniteCases /\ UNCHANGED <<vars, hist>>
 Step == /\ kind = "proto" /\ Next
